@@ -136,3 +136,52 @@ PROPS["C14"] = {
     "trusted": PROPS["C13"]["trusted"] + ["'at most once per send interval' is read within an incident (DESIGN 4.14): Burrow itself restarts the timer at incident boundaries"],
     "assumptions": PROPS["C13"]["assumptions"],
 }
+
+PROPS["C05"] = {
+    "ready": False,
+    "lean_modules": ["BurrowVerif.Props.C05"],
+    "props_files": ["BurrowVerif/Props/C05.lean"],
+    "anchors": ["core/internal/evaluator/caching.go", "core/internal/evaluator/coordinator.go"],
+    "streams": [{"name": "evalcache", "keys": None, "trivial": r"^(ok.*|rc=\S+ rg=\S+ gs=0 .*)$", "hist_keys": ["path"],
+                 "scale": {"quick": 1, "thorough": 12}, "seeds": {"quick": 1, "thorough": 3}}],
+    "rule": ("stream evalcache: status requests through a persistent real CachingEvaluator (its goswarm cache, expire-cache 0/5/10 s) wired to the real storage; 3 clusters and 5 "
+             "group names chosen to collide under a naive key (\"a b\"+\"c\" vs \"a\"+\"b c\", empty names), existing / unknown / expired / deleted groups, both views; storage is "
+             "mutated between requests (commits, broker updates, deletions, expiry by time shifting); the cache clock is frozen before each request and advanced by ageing "
+             "the entries (hook) by k*1000+8 ms; after a request answered from a cached error the background refresh is awaited. The Spec oracle flags hits that differ from a fresh "
+             "evaluation when the lifetime is 0 (known finding D16). Non-trivial = a reply other than NOTFOUND."),
+    "trusted": [
+        "goswarm.Simple is modelled from its v1.10.0 source as Burrow configures it (good/bad expiry = expire-cache, no stale durations); validated differentially",
+        "requests are sequential in the theorems; the concurrent clause (one goroutine per request, exactly one reply each) is runtime behaviour observed on the implementation, not proved",
+        "evaluation time is zero in the model (lookups are instantaneous)",
+    ],
+    "assumptions": PROPS["C01"]["assumptions"],
+}
+
+_CLUSTER_STREAM = {"name": "cluster", "keys": None, "trivial": r"^(ok|refresh=\d deletes=- asked=- updates=- fm=\d)$", "hist_keys": ["refresh", "fm"],
+                   "scale": {"quick": 2, "thorough": 30}, "seeds": {"quick": 1, "thorough": 4}}
+_CLUSTER_RULE = ("stream cluster: the real KafkaCluster.getOffsets (hook) against a scripted fake Kafka client and brokers (verifhook.FakeKafka: Topics/Partitions/Leader/"
+                 "GetAvailableOffsets answered from the op line, every call recorded, OffsetRequest blocks read by reflection): layouts of 0-4 topics x 0-4 partitions over 3 brokers with "
+                 "leaderless partitions, evolving over 1-7 consecutive cycles (topics appearing, disappearing, re-appearing, losing all leaders), with Topics() failures, Partitions() failures "
+                 "at any topic, leader lookups that answer differently at request time, failing broker calls, per-partition error codes, metadata ticks. Compared: RefreshMetadata calls, "
+                 "delete-topic requests, blocks asked of each broker, broker-offset updates (offset and partition count), the fetchMetadata flag. Non-trivial = any request, update or deletion.")
+PROPS["C11"] = {
+    "lean_modules": ["BurrowVerif.Props.C11"],
+    "props_files": ["BurrowVerif/Props/C11.lean"],
+    "anchors": ["core/internal/cluster/kafka_cluster.go", "core/internal/helpers/sarama.go"],
+    "streams": [dict(_CLUSTER_STREAM, keys={"asked", "updates", "fm", "refresh"})],
+    "rule": _CLUSTER_RULE,
+    "trusted": [
+        "everything Kafka answers is a parameter of the model (Env); brokers that answer are assumed faithful (answer exactly the requested partitions) in the exactly-one/none theorems",
+        "the per-broker goroutines run in parallel in the code: outputs are compared as sorted multisets; send time-outs and an answer with an empty Offsets slice are not modelled",
+    ],
+    "assumptions": [],
+}
+PROPS["C12"] = {
+    "lean_modules": ["BurrowVerif.Props.C12"],
+    "props_files": ["BurrowVerif/Props/C12.lean"],
+    "anchors": ["core/internal/cluster/kafka_cluster.go"],
+    "streams": [dict(_CLUSTER_STREAM, keys={"deletes", "refresh", "fm"})],
+    "rule": _CLUSTER_RULE,
+    "trusted": PROPS["C11"]["trusted"],
+    "assumptions": [],
+}
